@@ -1,33 +1,43 @@
 """Regex / separator constants of /repo's source for the hand-written scanners of the Lean models.
 
-Used by harness/translate.py (`tables`).  AST only: nothing of /repo is imported or executed.
+Used by harness/translate.py (`tables`).  AST only: nothing of /repo is imported or executed (the `pp*` block alone
+imports the installed third-party package pyparsing, like the `mac*` block of translate.py imports macaddress).
 
-Every model that scans for a FIXED regular expression of the source (a token matcher written by hand for
-that one pattern) is tied to the pattern's text here: the pattern is read from the source, written into
-lean/Ccp/Gen/Tables.lean, and the theorem `Ccp.RxCxx.regexes_as_modelled` states that it equals the literal
-the scanner was written for.  An edit of the pattern in /repo therefore breaks a proof obligation of exactly
-the properties whose model scans for it.
+Every model that scans for a FIXED regular expression of the source (a token matcher written by hand for that one
+pattern) is tied to the pattern's text here: the pattern is read from the source, written into
+lean/Ccp/Gen/Tables.lean, and the theorem `Ccp.RxCxx.regexes_as_modelled` states that it equals the literal the
+scanner was written for.  An edit of the pattern in /repo therefore breaks a proof obligation of exactly the
+properties whose model scans for it.
 
 What is extracted
 -----------------
 * a *string constant expression*: a `str` literal, implicit / `+` concatenation, an f-string, `"…".format(…)`,
-  `"…" % (…)`, `re.escape(…)`, or a name bound (once, or always to the same value) to such an expression in the
-  enclosing function, class or module;
-* a *compiled pattern*: `re.compile(<string constant expression>[, flags])`, possibly through a name; the flags
-  are emitted with the pattern (canonical long names joined by `|`);
-* the *scan list of a function*: every regex call (`re.search/match/fullmatch/split/sub/subn/findall/finditer/
-  compile`, `<compiled constant>.<same>`, and the ciscoconfparse2 helpers `re_match`, `re_search`,
-  `re_match_typed`, `re_match_iter_typed`, `re_list_iter_typed`, `re_search_children`, … = every method whose name
-  starts with `re_`), every `str.split / rsplit / partition / rpartition / startswith / endswith / replace / join`
-  with literal arguments, and every comparison / membership test against a `str` literal or a list / tuple / set
-  of `str` literals, in source order, as triples `(callee, text, detail)`.
+  `"…" % (…)`, `re.escape(…)`, `"sep".join([…])`, or a name / `self.X` bound (once, or always to the same value) to such
+  an expression in the enclosing function, its class, the module, or another module of the package it is imported from;
+* a *compiled pattern*: `re.compile(<string constant expression>[, flags])`, possibly through names / instance
+  attributes; the flags go with the pattern (canonical long names joined by `|`);
+* the *scan set of an entry point* (`scan_closure`): for the function and every helper of the same source file it
+  reaches (`self.X`, `cls.X`, `Class.X`, module level functions; transitively) —
+    - every regex call: `re.search/match/fullmatch/split/sub/subn/findall/finditer/compile`, the same methods of a
+      compiled pattern (reported as the `re.` function with the pattern's text and flags), and the ciscoconfparse2
+      helpers whose name starts with `re_` (`re_match`, `re_match_typed`, `re_match_iter_typed`, …); for `re.sub` the
+      replacement text too; a pattern that is not a constant is `<dynamic>` (its flags are still recorded), a constant
+      frame around a non-constant part is a `…-template`;
+    - (kind `str`) `str.split / rsplit / partition / rpartition / startswith / endswith / replace / …` with literal
+      arguments, argument-less `split()` / `splitlines()`, `"lit".join(…)`;
+    - (kind `in`) `"lit" in <expr>`;  (kind `cmp`) comparisons of an expression with a `str` literal or a list / tuple /
+      set of `str` literals, with the constant subscript of the other side (`[0:10]`, `[0:21].lower()`) as detail;
+  as a sorted duplicate-free list of triples `(what, text, flags or detail)`.
 
-A pattern compiled with `re.VERBOSE` is emitted in its *canonical verbose form* (`strip_verbose`: white space
-and `#` comments outside character classes removed, exactly what `re`'s parser skips), so that re-indenting it
-or editing a comment inside it changes nothing, while any change of the pattern proper does.
+What deliberately does NOT change a scan set (harmless rewrites must not break an obligation): line breaks, comments,
+docstrings, renaming a local variable or a constant, binding a pattern to a name first, hoisting it into a compiled
+module constant (or the reverse), moving a test into a helper method of the same file (or out of one), re-ordering or
+repeating tests, negating a test (`!=` is reported as `==`, `not in` as `in`).  A pattern compiled with `re.VERBOSE`
+is reported in its *canonical verbose form* (`strip_verbose`: white space and `#` comments outside character classes
+removed, exactly what `re`'s parser skips), so re-indenting it or editing a comment inside it changes nothing either.
 
-Anything that cannot be found or is not such a constant is raised as an exception: `translate.emit` turns it
-into a translator PROBLEM (a broken obligation), never a silent skip.
+Anything that cannot be found is raised as an exception: `translate.emit` turns it into a translator PROBLEM (a broken
+obligation), never a silent skip.
 """
 import ast
 import re as _re
@@ -418,7 +428,29 @@ def _slice_text(node):
 _CMP = {ast.Eq: "==", ast.NotEq: "!=", ast.In: "in", ast.NotIn: "not in", ast.Lt: "<", ast.LtE: "<=", ast.Gt: ">", ast.GtE: ">="}
 
 
-def scan_function(func, scope, kinds=("re", "str", "in", "cmp"), distinct=True, ref_compiled=True):
+def _repl_text(node, scope, depth=0):
+    """replacement argument of re.sub: a string constant expression, or one passed through `str.translate(…)` (shown
+    with the suffix ` via str.translate`: the table is not evaluated), possibly through a local name; else <dynamic>"""
+    try:
+        return str_const(node, scope)
+    except NotConstant:
+        pass
+    if isinstance(node, ast.Call) and isinstance(node.func, ast.Attribute) and node.func.attr == "translate":
+        try:
+            return str_const(node.func.value, scope) + " via str.translate"
+        except NotConstant:
+            return DYNAMIC
+    d = deref(node, scope)
+    if d is not None and depth < 10:
+        vals, inner, _ = d
+        if vals and all(v is not None for v in vals):
+            got = {_repl_text(v, inner, depth + 1) for v in vals}
+            if len(got) == 1:
+                return got.pop()
+    return DYNAMIC
+
+
+def scan_function(func, scope, kinds=("re", "str", "in", "cmp"), distinct=True):
     """the scan list of a function: [(callee, text, detail)] in source order (see the module docstring)"""
     out = []
     for n in _own_nodes(func):
@@ -458,22 +490,17 @@ def scan_function(func, scope, kinds=("re", "str", "in", "cmp"), distinct=True, 
                     detail = fl or fl0
                     if is_re_mod and attr in ("sub", "subn") and len(n.args) >= 2:
                         # the replacement text belongs to the scanner as much as the pattern
-                        try:
-                            detail = (detail + " repl=" + str_const(n.args[1], scope)).strip()
-                        except NotConstant:
-                            detail = (detail + " repl=" + DYNAMIC).strip()
+                        detail = (detail + " repl=" + _repl_text(n.args[1], scope)).strip()
                     out.append((callee, pat, detail))
                     continue
                 if is_compiled:
-                    where = deref(recv, scope)[2]
-                    rname = "<local pattern>" if where == "function" else _name_of(recv).replace("self.", "").replace("cls.", "")
+                    # `<compiled pattern>.search(x)` is reported exactly like `re.search(<its text>, x, <its flags>)`, so
+                    # hoisting a pattern into a compiled constant (or the reverse), or renaming the constant, changes nothing
                     try:
                         pat, fl = pattern_const(recv, scope)
                     except NotConstant:
                         pat, fl = DYNAMIC, ""
-                    if ref_compiled and where != "function" and isinstance(recv, ast.Name):
-                        pat = f"<{recv.id}>"      # the text is emitted with the constant itself
-                    out.append((rname + "." + attr, pat, fl))
+                    out.append(("re." + attr, pat, fl))
                     continue
             if "str" in kinds and attr in STR_FUNCS and not (isinstance(recv, ast.Name) and recv.id == "re"):
                 lits = [_literal_strs(a) for a in n.args]
@@ -494,8 +521,10 @@ def scan_function(func, scope, kinds=("re", "str", "in", "cmp"), distinct=True, 
             ll, rl = _literal_strs(left), _literal_strs(right)
             if op and (ll is not None) != (rl is not None):
                 lit, other = (ll, right) if ll is not None else (rl, left)
+                # the polarity of a test is control flow, not scanner text: `!=` is reported as `==`, `not in` as `in`
+                op = {"!=": "==", "not in": "in"}.get(op, op)
                 side = "lit " + op if ll is not None else op
-                kind = "in" if side in ("lit in", "lit not in") else "cmp"
+                kind = "in" if side == "lit in" else "cmp"
                 if kind in kinds and lit != "":
                     out.append((side, lit, _slice_text(other)))
     if distinct:
@@ -506,12 +535,6 @@ def scan_function(func, scope, kinds=("re", "str", "in", "cmp"), distinct=True, 
                 uniq.append(t)
         out = uniq
     return out
-
-
-def lean_triples(items, lean_str):
-    if not items:
-        return "[]"
-    return "[" + ",\n   ".join(f"({lean_str(a)}, {lean_str(b)}, {lean_str(c)})" for a, b, c in items) + "]"
 
 
 def find_class(tree, name):
@@ -536,13 +559,109 @@ def find_method(holder, name):
     return found[-1]
 
 
+def class_bases_in_file(tree, cls):
+    """the class and, transitively, those of its base classes that are defined at the top level of the same file"""
+    out, todo = [], [cls]
+    while todo:
+        c = todo.pop(0)
+        if c in out:
+            continue
+        out.append(c)
+        for b in c.bases:
+            if isinstance(b, ast.Name):
+                todo += [n for n in tree.body if isinstance(n, ast.ClassDef) and n.name == b.id]
+    return out
+
+
+def resolve_method(tree, cls, name):
+    """(defining class, function) of `cls.name`, looked up in the class and then in its same-file bases"""
+    for h in class_bases_in_file(tree, cls):
+        try:
+            return h, find_method(h, name)
+        except KeyError:
+            continue
+    raise KeyError(f"function {name} not found in {cls.name} or its base classes of the same file")
+
+
+def helpers_of(tree, self_cls, func):
+    """the functions of the SAME source file that `func` refers to: `self.X` / `cls.X` (a method call or a property
+    read; X looked up in `self_cls` — the class the entry point was asked for — and its same-file bases),
+    `ClassName.X` for a class of the file, and calls of module level functions of the file
+    → [(defining class or None, function node)]"""
+    out = []
+    classes = {n.name: n for n in tree.body if isinstance(n, ast.ClassDef)}
+    funcs = {n.name: n for n in tree.body if isinstance(n, (ast.FunctionDef, ast.AsyncFunctionDef))}
+    for n in _own_nodes(func):
+        if isinstance(n, ast.Attribute) and isinstance(n.value, ast.Name):
+            holder = None
+            if n.value.id in ("self", "cls") and self_cls is not None:
+                holder = self_cls
+            elif n.value.id in classes:
+                holder = classes[n.value.id]
+            if holder is not None:
+                try:
+                    out.append(resolve_method(tree, holder, n.attr))
+                except KeyError:
+                    pass
+        elif isinstance(n, ast.Call) and isinstance(n.func, ast.Name) and n.func.id in funcs:
+            out.append((None, funcs[n.func.id]))
+    return out
+
+
+def reach(tree, cls, func_name, stop=()):
+    """the entry point `cls.func_name` (or the module level function) and every same-file helper it reaches
+    (`helpers_of`, transitively, never entering a function named in `stop`) → [(defining class or None, function)]"""
+    if cls is not None:
+        start = resolve_method(tree, cls, func_name)
+    else:
+        start = (None, find_method(tree, func_name))
+    seen, order = set(), []
+
+    def visit(c, f):
+        key = (c.name if c is not None else None, f.name, f.lineno)
+        if key in seen:
+            return
+        seen.add(key)
+        order.append((c, f))
+        for c2, f2 in helpers_of(tree, cls if c is not None else None, f):
+            if f2.name not in stop:
+                visit(c2, f2)
+    visit(*start)
+    return order
+
+
+def scan_closure(tree, cls, func_name, kinds, loader, stop=()):
+    """the scan SET of an entry point: the scan lists of the function and of every same-file helper it reaches, as a
+    sorted duplicate-free list.  Moving a regex between the function and a helper (or a base class of the file),
+    re-ordering the tests, repeating one, negating one, hoisting a pattern into a compiled constant or renaming a
+    constant or a local variable changes nothing; changing the text of a pattern, its flags, a separator or a keyword
+    does.  → (items, names of the functions reached)"""
+    items = set()
+    fs = reach(tree, cls, func_name, stop)
+    for c, f in fs:
+        items.update(scan_function(f, Scope(tree, c, f, loader), kinds, distinct=False))
+    return sorted(items), sorted(f.name if c is None else f"{c.name}.{f.name}" for c, f in fs)
+
+
+def lean_triples(items, lean_str):
+    if not items:
+        return "[]"
+    return "[" + ",\n   ".join(f"({lean_str(a)}, {lean_str(b)}, {lean_str(c)})" for a, b, c in items) + "]"
+
+
+def lean_pairs(items, lean_str):
+    if not items:
+        return "[]"
+    return "[" + ",\n   ".join(f"({lean_str(a)}, {lean_str(b)})" for a, b in items) + "]"
+
+
 # ----------------------------------------------------------------------------------------------------------------
 # special shapes
 # ----------------------------------------------------------------------------------------------------------------
 
 def argparse_str_defaults(func, scope):
-    """`<parser>.add_argument("-w", "--word_delimiter", default=r"\\s+", …)` → [(longest option string, default)] for
-    every add_argument call of the function whose `default=` is a string constant expression, in source order"""
+    r"""`<parser>.add_argument("-w", "--word_delimiter", default=r"\s+", …)` → [(longest option string, default)] for
+    every add_argument call of the function whose `default=` is a string constant expression"""
     out = []
     for n in _own_nodes(func):
         if isinstance(n, ast.Call) and isinstance(n.func, ast.Attribute) and n.func.attr == "add_argument":
@@ -560,7 +679,7 @@ def argparse_str_defaults(func, scope):
 
 
 def getattr_str_defaults(func, scope):
-    """`getattr(args, 'word_delimiter', r"\\s+")` → [(attribute name, default)] for string defaults, in source order"""
+    r"""`getattr(args, 'word_delimiter', r"\s+")` → [(attribute name, default)] for string defaults"""
     out = []
     for n in _own_nodes(func):
         if isinstance(n, ast.Call) and isinstance(n.func, ast.Name) and n.func.id == "getattr" and len(n.args) == 3 \
@@ -574,8 +693,8 @@ def getattr_str_defaults(func, scope):
 
 def call_shape(func, callee, scope):
     """the calls `callee(…)` inside a function: positional arguments and keywords as text — a string constant
-    expression by its value (quoted), anything else by the NAME of what is passed when that is an imported module
-    level name (`printables`), else `<dynamic>`; → [(argument slot, text)] per call"""
+    expression by its value (quoted), a string built around a non-constant part as `template '…'`, an imported name
+    passed as is as `name X`, anything else `<dynamic>` → one [(argument slot, text)] per call"""
     calls = []
     for n in _own_nodes(func):
         if isinstance(n, ast.Call) and ast.unparse(n.func).split(".")[-1] == callee:
@@ -590,7 +709,7 @@ def call_shape(func, callee, scope):
                 if t is not None:
                     return "template " + repr(t[0])
                 if isinstance(v, ast.Name):
-                    vals, _, where = scope.lookup(v.id)
+                    _, _, where = scope.lookup(v.id)
                     if where == "unbound":
                         return "name " + v.id           # an imported / builtin name
                 return DYNAMIC
@@ -602,82 +721,54 @@ def call_shape(func, callee, scope):
     return calls
 
 
-def lean_pairs(items, lean_str):
-    if not items:
-        return "[]"
-    return "[" + ",\n   ".join(f"({lean_str(a)}, {lean_str(b)})" for a, b in items) + "]"
-
-
 # ----------------------------------------------------------------------------------------------------------------
-# what is emitted (one block per property; see lean/Ccp/Props/RxCxx.lean for the theorems)
+# what is emitted (one block per property; the theorems are lean/Ccp/Props/RxCxx.lean : regexes_as_modelled)
 # ----------------------------------------------------------------------------------------------------------------
 
 ALL = ("re", "str", "in", "cmp")
 RS = ("re", "str")
 RSI = ("re", "str", "in")
 
-# (lean name, source file, class or None, python constant)        compiled pattern or plain str: text (+ flags)
-CONSTS = [
+# (lean name, source file, class or None, entry function, kinds, functions never entered)
+ENTRIES = [
     # C11
-    ("rxIpv6RgxCls", "ccp_util.py", None, "_IPV6_RGX_CLS"),
-    ("rxIpv4AddrWithMask", "ccp_util.py", None, "_RGX_IPV4ADDR_WITH_MASK"),
-    ("rxIpv6Addr", "ccp_util.py", None, "_RGX_IPV6ADDR"),
-    # C19
-    ("rxIosIpRoute", "models_cisco.py", None, "_RE_IP_ROUTE"),
-    # C20
-    ("rxAsaNetObject", "models_asa.py", None, "_RE_NETOBJECT"),
-    ("rxAsaNameObject", "models_asa.py", None, "_RE_NAMEOBJECT"),
-    ("rxAsaReNames", "ciscoconfparse2.py", "ConfigList", "self._RE_NAMES"),
-    ("rxAsaReObjNet", "ciscoconfparse2.py", "ConfigList", "self._RE_OBJNET"),
-    ("rxAsaReObjAcl", "ciscoconfparse2.py", "ConfigList", "self._RE_OBJACL"),
-]
-
-# (lean name, source file, class or None, function, kinds)          scan list of a function
-SCANS = [
-    # C11
-    ("rxScanIPv4ObjInit", "ccp_util.py", "IPv4Obj", "__init__", RS),
-    ("rxScanIPv6ObjInit", "ccp_util.py", "IPv6Obj", "__init__", RS),
+    ("rxIPv4ObjInit", "ccp_util.py", "IPv4Obj", "__init__", RS, ()),
+    ("rxIPv6ObjInit", "ccp_util.py", "IPv6Obj", "__init__", RS, ()),
     # C15 (and, through Ccp.Model.Intf, C19)
-    ("rxScanIntfParseSingle", "ccp_util.py", "CiscoIOSInterface", "parse_single_interface", RSI),
-    ("rxScanIntfParseShort", "ccp_util.py", "CiscoIOSInterface", "parse_intf_short", RSI),
-    ("rxScanIntfParseLong", "ccp_util.py", "CiscoIOSInterface", "parse_intf_long", RSI),
-    ("rxScanRangeInit", "ccp_util.py", "CiscoRange", "__init__", RSI),
-    ("rxScanRangeParseInterfaces", "ccp_util.py", "CiscoRange", "parse_cisco_interfaces", RSI),
+    ("rxIntfParse", "ccp_util.py", "CiscoIOSInterface", "parse_single_interface", RSI, ()),
+    ("rxRangeInterfaces", "ccp_util.py", "CiscoRange", "__init__", RSI, ("parse_integers", "parse_floats")),
     # C14 (and, through Ccp.Model.Range, C19)
-    ("rxScanRangeParseIntegers", "ccp_util.py", "CiscoRange", "parse_integers", RSI),
+    ("rxRangeIntegers", "ccp_util.py", "CiscoRange", "__init__", RSI, ("parse_cisco_interfaces", "parse_strings", "parse_floats")),
     # C20
-    ("rxScanAsaNames", "ciscoconfparse2.py", "ConfigList", "asa_object_group_names", ALL),
-    ("rxScanAsaObjNet", "ciscoconfparse2.py", "ConfigList", "asa_object_group_network", ALL),
-    ("rxScanAsaAcl", "ciscoconfparse2.py", "ConfigList", "asa_access_list", ALL),
-    ("rxScanAsaGroupInit", "models_asa.py", "ASAObjGroupNetwork", "__init__", ALL),
-    ("rxScanAsaGroupIsObjectFor", "models_asa.py", "ASAObjGroupNetwork", "is_object_for", ALL),
-    ("rxScanAsaGroupNetworkStrings", "models_asa.py", "ASAObjGroupNetwork", "network_strings", ALL),
-    ("rxScanAsaNameInit", "models_asa.py", "ASAName", "__init__", ALL),
-    ("rxScanAsaNameIsObjectFor", "models_asa.py", "ASAName", "is_object_for", ALL),
-    ("rxScanL4ObjectInit", "ccp_util.py", "L4Object", "__init__", ALL),
+    ("rxAsaNames", "ciscoconfparse2.py", "ConfigList", "asa_object_group_names", ALL, ()),
+    ("rxAsaObjNet", "ciscoconfparse2.py", "ConfigList", "asa_object_group_network", ALL, ()),
+    ("rxAsaAcl", "ciscoconfparse2.py", "ConfigList", "asa_access_list", ALL, ()),
+    ("rxAsaGroupInit", "models_asa.py", "ASAObjGroupNetwork", "__init__", ALL, ()),
+    ("rxAsaGroupIsObjectFor", "models_asa.py", "ASAObjGroupNetwork", "is_object_for", ALL, ()),
+    ("rxAsaGroupNetworkStrings", "models_asa.py", "ASAObjGroupNetwork", "network_strings", ALL, ()),
+    ("rxAsaNameInit", "models_asa.py", "ASAName", "__init__", ALL, ()),
+    ("rxAsaNameIsObjectFor", "models_asa.py", "ASAName", "is_object_for", ALL, ()),
+    ("rxL4ObjectInit", "ccp_util.py", "L4Object", "__init__", ALL, ()),
     # C18
-    ("rxScanCliIpgrep", "cli_script.py", "CliApplication", "ipgrep_command", RSI),
-    ("rxScanCliIpLineMatches", "cli_script.py", "CliApplication", "find_ip46_line_matches", RSI),
-    ("rxScanCliMacgrep", "cli_script.py", "CliApplication", "macgrep_command", RSI),
-    ("rxScanCliMacLineMatches", "cli_script.py", "CliApplication", "find_maceui_line_matches", RSI),
-    ("rxScanCliMacSearchAllFormats", "cli_script.py", "MACEUISearch", "search_all_formats", RSI),
+    ("rxCliIpgrep", "cli_script.py", "CliApplication", "ipgrep_command", RSI, ()),
+    ("rxCliMacgrep", "cli_script.py", "CliApplication", "macgrep_command", RSI, ()),
+    ("rxCliMacSearch", "cli_script.py", "MACEUISearch", "search_all_formats", RSI, ()),
     # C04
-    ("rxScanSpaceTolerant", "ciscoconfparse2.py", None, "build_space_tolerant_regex", RS),
-    ("rxScanEscapeLinespec", "ciscoconfparse2.py", None, "escape_linespec", RS),
-    ("rxScanFindLineObj", "ciscoconfparse2.py", "CiscoConfParse", "_find_line_OBJ", RS),
+    ("rxSpaceTolerant", "ciscoconfparse2.py", None, "build_space_tolerant_regex", RS, ()),
+    ("rxEscapeLinespec", "ciscoconfparse2.py", None, "escape_linespec", RS, ()),
+    ("rxFindLineObj", "ciscoconfparse2.py", "CiscoConfParse", "_find_line_OBJ", RS, ()),
     # C08
-    ("rxScanBraceUnpack", "ciscoconfparse2.py", "BraceParse", "unpack_nested_list_to_config_objs", ALL),
+    ("rxBraceUnpack", "ciscoconfparse2.py", "BraceParse", "unpack_nested_list_to_config_objs", ALL, ()),
 ]
 
-# C19: the accessors of models_cisco.py that Ccp.Model.IosModels models → one table, (accessor, scan list)
+# C19: the accessors of models_cisco.py that Ccp.Model.IosModels models, looked up from the concrete classes
 IOS_ACCESSORS = [
-    ("IOSCfgLine", ["is_intf", "is_in_portchannel", "portchannel_number", "is_portchannel_intf"]),
-    ("BaseIOSIntfLine", ["name", "port_type", "interface_number", "subinterface_number", "description", "ipv4_addr",
-                         "ipv4_netmask", "ipv4_addr_object", "ip_secondary_addresses", "ip_secondary_networks", "vrf",
-                         "manual_mtu", "manual_ip_mtu", "is_shutdown", "is_switchport", "has_manual_switch_access",
-                         "has_manual_switch_trunk", "access_vlan", "native_vlan", "trunk_vlans_allowed",
-                         "cisco_interface_object"]),
-    ("IOSCfgLine", ["is_object_for_interface"]),
+    ("IOSIntfLine", ["is_object_for", "is_intf", "is_in_portchannel", "portchannel_number", "is_portchannel_intf",
+                     "name", "cisco_interface_object", "port_type", "interface_number", "subinterface_number",
+                     "description", "ipv4_addr", "ipv4_netmask", "ipv4_addr_object", "ip_secondary_addresses",
+                     "ip_secondary_networks", "vrf", "manual_mtu", "manual_ip_mtu", "is_shutdown", "is_switchport",
+                     "has_manual_switch_access", "has_manual_switch_trunk", "access_vlan", "native_vlan",
+                     "trunk_vlans_allowed"]),
     ("IOSRouteLine", ["is_object_for", "__init__"]),
 ]
 
@@ -687,66 +778,39 @@ def ios_lean_name(cls, accessor):
 
 
 def emit_all(src, emit, lean_str):
-    """called by translate.tables(): `src.tree(fn)` gives the AST of a source file, `emit(name, thunk)` records a block"""
+    """called by translate.tables(): `src.tree(fn)` gives the AST of a source file, `emit(name, thunk)` records a block
+    (an exception raised by the thunk becomes a translator PROBLEM)"""
     loader = src.tree
 
-    def holder_of(fn, cls):
+    def closure(fn, cls, func, kinds, stop):
         tree = src.tree(fn)
-        return tree, (find_class(tree, cls) if cls else None)
+        c = find_class(tree, cls) if cls else None
+        return scan_closure(tree, c, func, kinds, loader, stop)
 
-    def t_const(lean, fn, cls, pyname):
+    def t_scan(lean, fn, cls, func, kinds, stop, label):
         def go():
-            tree, c = holder_of(fn, cls)
-            node = ast.parse(pyname, mode="eval").body
-            pat, flags = pattern_const(node, Scope(tree, c, None, loader))
-            where = f"{fn}: {cls + '.' if cls else ''}{pyname}"
-            d = deref(node, Scope(tree, c, None, loader))
-            compiled = bool(d and d[0] and all(v is not None and _compile_call(v) for v in d[0]))
-            text = (f"/-- `{where}`" + (" — pattern text (canonical verbose form when the flags contain VERBOSE) and flags"
-                                       if compiled else "") + " -/\n"
-                    f"def {lean} : String := {lean_str(pat)}\n")
-            if compiled:
-                text += f"def {lean}Flags : String := {lean_str(flags)}\n"
-            return text, {"pattern": pat, "flags": flags} if compiled else pat
-        return go
-
-    for lean, fn, cls, pyname in CONSTS:
-        emit(lean, t_const(lean, fn, cls, pyname))
-
-    def scan_of(fn, cls, func, kinds):
-        tree, c = holder_of(fn, cls)
-        f = find_method(c if c is not None else tree, func)
-        return scan_function(f, Scope(tree, c, f, loader), kinds)
-
-    def t_scan(lean, fn, cls, func, kinds):
-        def go():
-            items = scan_of(fn, cls, func, kinds)
+            items, reached = closure(fn, cls, func, kinds, stop)
             if not items:
                 raise KeyError(f"{cls + '.' if cls else ''}{func} in {fn} contains none of the scanned constructs any more")
-            text = (f"/-- scan list of `{fn}: {cls + '.' if cls else ''}{func}` (kinds {'/'.join(kinds)}; distinct, in order of\n"
-                    f"first appearance): (callee, text, flags or detail) -/\n"
+            via = [r for r in reached if r != (f"{cls}.{func}" if cls else func)]
+            text = (f"/-- {label}scan set of `{fn}: {cls + '.' if cls else ''}{func}`"
+                    + (f" (never entering {', '.join(stop)})" if stop else "")
+                    + f"; kinds {'/'.join(kinds)};\nsorted: (what, text, flags or detail)"
+                    + (f"; helpers reached now: {', '.join(via)}" if via else "") + " -/\n"
                     f"def {lean} : List (String × String × String) :=\n  {lean_triples(items, lean_str)}\n")
             return text, len(items)
         return go
 
-    for lean, fn, cls, func, kinds in SCANS:
-        emit(lean, t_scan(lean, fn, cls, func, kinds))
-
-    def t_ios(lean, cls, a):
-        def go():
-            items = scan_of("models_cisco.py", cls, a, ALL)
-            if not items:
-                raise KeyError(f"{cls}.{a} contains none of the scanned constructs any more")
-            return (f"/-- C19: scan list (all kinds) of `models_cisco.py: {cls}.{a}` -/\n"
-                    f"def {lean} : List (String × String × String) :=\n  {lean_triples(items, lean_str)}\n"), len(items)
-        return go
+    for lean, fn, cls, func, kinds, stop in ENTRIES:
+        emit(lean, t_scan(lean, fn, cls, func, kinds, stop, ""))
     for cls, accs in IOS_ACCESSORS:
         for a in accs:
             lean = ios_lean_name(cls, a)
-            emit(lean, t_ios(lean, cls, a))
+            emit(lean, t_scan(lean, "models_cisco.py", cls, a, ALL, (), "C19: "))
 
     def t_cli_defaults():
-        tree, ap = holder_of("cli_script.py", "ArgParser")
+        tree = src.tree("cli_script.py")
+        ap = find_class(tree, "ArgParser")
         rows = []
         for f in ap.body:
             if isinstance(f, ast.FunctionDef) and f.name.startswith("build_command_args_"):
@@ -754,64 +818,47 @@ def emit_all(src, emit, lean_str):
                     rows.append((f.name[len("build_command_args_"):] + " " + opt, d))
         if not rows:
             raise KeyError("no add_argument(..., default=<str>) found in ArgParser.build_command_args_*")
-        _, app = holder_of("cli_script.py", "CliApplication")
-        init = find_method(app, "__init__")
-        g = getattr_str_defaults(init, Scope(tree, app, init, loader))
+        app = find_class(tree, "CliApplication")
+        g = []
+        for c, f in reach(tree, app, "__init__", stop=("parent_command", "child_command", "branch_command", "diff_command",
+                                                       "ipgrep_command", "macgrep_command")):
+            g += getattr_str_defaults(f, Scope(tree, c, f, loader))
         if not g:
             raise KeyError("no getattr(args, <name>, <str>) found in CliApplication.__init__")
         return ("/-- C18: string defaults of the argparse options (`<sub-command> <option>`, default) of\n"
-                "`ArgParser.build_command_args_*`, and of the `getattr(args, name, default)` fall-backs of `CliApplication.__init__` -/\n"
-                f"def rxCliArgDefaults : List (String × String) :=\n  {lean_pairs(rows, lean_str)}\n"
-                f"def rxCliGetattrDefaults : List (String × String) :=\n  {lean_pairs(g, lean_str)}\n"), {"options": len(rows), "getattr": len(g)}
+                "`ArgParser.build_command_args_*`, and of the `getattr(args, name, default)` fall-backs of `CliApplication.__init__`\n"
+                "(both sorted) -/\n"
+                f"def rxCliArgDefaults : List (String × String) :=\n  {lean_pairs(sorted(set(rows)), lean_str)}\n"
+                f"def rxCliGetattrDefaults : List (String × String) :=\n  {lean_pairs(sorted(set(g)), lean_str)}\n"), \
+            {"options": len(rows), "getattr": len(g)}
     emit("rxCliDefaults", t_cli_defaults)
 
-    def t_escaped_space():
-        tree = src.tree("ciscoconfparse2.py")
-        f = find_method(tree, "build_space_tolerant_regex")
-        sc = Scope(tree, None, f, loader)
-        vals, _, _ = sc.lookup("escaped_space")
-        if len(vals) != 1 or vals[0] is None:
-            raise KeyError("build_space_tolerant_regex: `escaped_space` is not assigned exactly once")
-        v = vals[0]
-        # `(backslash + backslash + "s+").translate(encoding)`: str.translate with a str table leaves ASCII text alone
-        # only when the table is shorter than the code points; the receiver is what the model / oracle hard-wires
-        via = ""
-        if isinstance(v, ast.Call) and isinstance(v.func, ast.Attribute) and v.func.attr == "translate":
-            via = "translate"
-            v = v.func.value
-        text = str_const(v, sc)
-        repl = [ast.unparse(n.args[1]) for n in _own_nodes(f)
-                if isinstance(n, ast.Call) and ast.unparse(n.func) == "re.sub" and len(n.args) >= 2]
-        if not repl or any(r != "escaped_space" for r in repl):
-            raise KeyError(f"build_space_tolerant_regex: re.sub replacement is no longer `escaped_space`: {repl}")
-        return ("/-- C04: the replacement text of `build_space_tolerant_regex` (`escaped_space`, before its `.translate(encoding)`)\n"
-                "and whether it still passes through `str.translate` -/\n"
-                f"def rxSpaceTolerantReplacement : String := {lean_str(text)}\n"
-                f"def rxSpaceTolerantVia : String := {lean_str(via)}\n"), [text, via]
-    emit("rxSpaceTolerantReplacement", t_escaped_space)
-
     def t_brace():
-        tree, c = holder_of("ciscoconfparse2.py", "BraceParse")
-        f = find_method(c, "parse_braces_to_nested_list")
-        sc = Scope(tree, c, f, loader)
+        tree = src.tree("ciscoconfparse2.py")
+        c = find_class(tree, "BraceParse")
+        fs = reach(tree, c, "__init__")
         rows = []
         for callee in ("Word", "White", "Combine", "OneOrMore", "nested_expr", "parse_string"):
-            calls = call_shape(f, callee, sc)
+            calls = []
+            for dc, f in fs:
+                calls += call_shape(f, callee, Scope(tree, dc, f, loader))
             if len(calls) != 1:
-                raise KeyError(f"parse_braces_to_nested_list: expected exactly one call of {callee}, found {len(calls)}")
+                raise KeyError(f"BraceParse.__init__ and its helpers: expected exactly one call of {callee}, found {len(calls)}")
             for slot, text in calls[0]:
                 rows.append((f"{callee} {slot}", text))
-        # where the imported names come from
-        imports = []
+        # the names must still be the pyparsing ones
+        imported = set()
         for n in tree.body:
             if isinstance(n, ast.ImportFrom) and n.module and n.module.split(".")[0] == "pyparsing":
                 for a in n.names:
-                    imports.append(f"{n.module}.{a.name}" + (f" as {a.asname}" if a.asname else ""))
+                    if a.asname not in (None, a.name):
+                        raise KeyError(f"pyparsing.{a.name} is imported under another name ({a.asname})")
+                    imported.add(a.name)
         need = {"Word", "White", "printables", "OneOrMore", "Combine", "nested_expr"}
-        have = {i.split(".")[-1].split(" as ")[-1] for i in imports}
-        if not need <= have:
-            raise KeyError(f"pyparsing names no longer imported by name: {sorted(need - have)}")
+        if not need <= imported:
+            raise KeyError(f"pyparsing names no longer imported by name: {sorted(need - imported)}")
         import importlib
+        import inspect
         pp = importlib.import_module("pyparsing")
         regexes = []
 
@@ -826,18 +873,13 @@ def emit_all(src, emit, lean_str):
         if not regexes:
             raise KeyError("no Regex found inside pyparsing.quoted_string")
         white = "".join(sorted(pp.ParserElement.DEFAULT_WHITE_CHARS))
-        import inspect
-        sig = inspect.signature(pp.nested_expr)
-        ig = sig.parameters.get("ignore_expr")
+        ig = inspect.signature(pp.nested_expr).parameters.get("ignore_expr")
         ig_default = "quoted_string" if (ig is not None and ig.default is not inspect.Parameter.empty
                                          and str(ig.default) == str(pp.quoted_string)) else repr(ig.default if ig else None)
-        ps = inspect.signature(pp.ParserElement.parse_string)
-        pa = ps.parameters.get("parse_all")
-        return ("/-- C08: the arguments of the pyparsing calls of `BraceParse.parse_braces_to_nested_list` (source, AST):\n"
+        pa = inspect.signature(pp.ParserElement.parse_string).parameters.get("parse_all")
+        return ("/-- C08: the arguments of the pyparsing calls reached from `BraceParse.__init__` (source, AST):\n"
                 "(`<callee> <positional index or keyword>`, value) -/\n"
                 f"def rxBraceCalls : List (String × String) :=\n  {lean_pairs(rows, lean_str)}\n"
-                f"/-- the pyparsing names the source imports -/\n"
-                f"def rxBraceImports : List String := [{', '.join(lean_str(i) for i in sorted(imports))}]\n"
                 f"/-- constants of the INSTALLED third-party package `pyparsing` (version {pp.__version__}; read by importing it, it\n"
                 "is not part of /repo): `printables`, `ParserElement.DEFAULT_WHITE_CHARS` (sorted), the `Regex` patterns inside\n"
                 "`quoted_string`, the default of `nested_expr(ignore_expr=…)`, the default of `parse_string(parse_all=…)` -/\n"
